@@ -242,17 +242,34 @@ func checkC11(c *Ctx, r *Report) {
 			// (the fields written in the conditions themselves, not everything the tested values derive from)
 			for _, rf := range fns {
 				info := rf.Pkg.TypesInfo
-				for _, ce := range branchConds(rf) {
-					ast.Inspect(ce, func(n ast.Node) bool {
-						if se, ok := n.(*ast.SelectorExpr); ok {
-							if sel := info.Selections[se]; sel != nil && sel.Kind() == types.FieldVal {
-								if q := qualField(info, se); strings.HasPrefix(q, "definitions.") {
+				fd := w.defsOf(rf)
+				var collect func(e ast.Expr, depth int)
+				collect = func(e ast.Expr, depth int) {
+					ast.Inspect(e, func(n ast.Node) bool {
+						switch x := n.(type) {
+						case *ast.SelectorExpr:
+							if sel := info.Selections[x]; sel != nil && sel.Kind() == types.FieldVal {
+								if q := qualField(info, x); strings.HasPrefix(q, "definitions.") {
 									out[q] = true
+								}
+							}
+						case *ast.Ident:
+							// a local that merely caches a field read (`contact := config.Info.Contact`)
+							if depth < 2 {
+								if o, ok := info.ObjectOf(x).(*types.Var); ok && !o.IsField() {
+									if ds := fd.defs[o]; len(ds) == 1 {
+										if _, isCall := ast.Unparen(ds[0]).(*ast.CallExpr); !isCall {
+											collect(ds[0], depth+1)
+										}
+									}
 								}
 							}
 						}
 						return true
 					})
+				}
+				for _, ce := range branchConds(rf) {
+					collect(ce, 0)
 				}
 			}
 			return out
